@@ -408,6 +408,9 @@ def check(prop, tier, seed, replay=None):
     ctx = dict(tier=tier, seed=seed, workdir=workdir, repo=REPO, verif=VERIF, libdir=libdir, cxxflags=CXXFLAGS,
                stats={}, samples=[], nontrivial=set(), excused=0)
     reqs = []
+    force_oracle = os.environ.get("LP_ORACLE_ONLY") == "1"   # self-test of the oracle-only search path
+    if force_oracle:
+        ok = False
     if exe and ok:
         if replay:
             rp = json.load(open(replay))
@@ -436,7 +439,11 @@ def check(prop, tier, seed, replay=None):
         reqs = list(mod.generate(tier, seed, ctx))
         impl = run_impl(exe, reqs, workdir)
         for i, rq in enumerate(reqs):
-            for f in (mod.oracle_only(rq, impl.get(i, "harness-no-answer"), ctx) or []):
+            try:
+                r = mod.oracle_only(rq, impl.get(i, "harness-no-answer"), ctx)
+            except Exception as e:   # an oracle bug must neither pass silently nor kill the check
+                r = [dict(kind="corr", clause="oracle_only exception", detail=repr(e))]
+            for f in (r or []):
                 f.update(req=rq, impl=impl.get(i, ""), model="")
                 fails.append(f)
 
